@@ -343,8 +343,17 @@ class SQLiteAlterTableSQLResult(AlterTableSQLResult):
             def get_field(name):
                 return new_fields_by_name[name]
 
+            @staticmethod
+            def get_path_to_parent(parent):
+                # The fields may have been built for different stand-ins
+                # of this same model. There are no parent models.
+                return []
+
             def __getattr__(self, name):
-                return getattr(meta, name)
+                try:
+                    return getattr(meta, name)
+                except KeyError:
+                    raise AttributeError(name)
 
         class _Model(object):
             _meta = _Meta()
